@@ -131,6 +131,24 @@ func (w *vWorld) conv() bool {
 			return true
 		}
 	}
+	// or some live recovery timer (of a listed, removed or orphan endpoint) will re-evaluate current
+	if m.switchingDelay > 0 {
+		for i := 0; i < vE; i++ {
+			if t, ok := w.eps[i].futureChange.(*vTimer); ok && t != nil && t.live() {
+				return true
+			}
+			if e, ok := m.endpoints[vName(i)]; ok {
+				if t, ok := e.futureChange.(*vTimer); ok && t != nil && t.live() {
+					return true
+				}
+			}
+		}
+		if w.orphan != nil {
+			if t, ok := w.orphan.futureChange.(*vTimer); ok && t != nil && t.live() {
+				return true
+			}
+		}
+	}
 	// or a delayed switch to the top available endpoint is pending
 	if m.future == vName(top) && m.switchingDelay > 0 && v.status[v.cur] != unavailable {
 		for i := 0; i < len(vTimers); i++ {
@@ -169,7 +187,7 @@ func VerifH_mestep() {
 	op := verifCase("op")
 	verifAssume(op >= 0 && op <= 2)
 	var repE int
-	var repAvail, firedOutdated bool
+	var repAvail bool
 	var list []string
 	var serr error
 	var tm0 timerAlike
@@ -202,13 +220,8 @@ func VerifH_mestep() {
 			vNow = t.due
 		}
 		if t.kind == 2 {
-			// the delayed switch is outdated when its target is no longer the top available endpoint
-			fe, ok := m.endpoints[m.future]
-			ta := v0.topAvail()
-			firedOutdated = ok && fe.status == available && (ta == vE || m.future != vName(ta))
 			verifReach("switch timer fired")
 		}
-		verifKnown("F-switch", firedOutdated)
 		t.fired = true
 		t.f()
 	}
@@ -319,7 +332,6 @@ func VerifH_mestep() {
 			}
 		}
 	}
-	verifKnown("F-switch", firedOutdated)
 	verifAssert(w.conv(), "C14: convergence: current is not the top available endpoint and nothing pending will bring it there")
 	verifObserve("cur", uint64(v1.cur))
 	verifObserve("timers", uint64(len(vTimers)))
